@@ -46,11 +46,14 @@ structure Fsg where
   sil : List Nat := []
   alt : List Nat := []
   name : String := ""
+  /-- `logmath_get_zero(fsg->lmath)` = `MAX_NEG_INT32 >> (shift + 2)`, the log of probability zero
+  (`-2^29` for the decoder's shift 0); the closure saturates its sums there (fix D51) -/
+  logZero : Int := -536870912
 deriving Repr, Inhabited, DecidableEq
 
 /-- `fsg_model_init` (+ the assignments of `start_state`/`final_state` every caller makes) -/
-def Fsg.init (name : String) (nState start final : Nat) : Fsg :=
-  { nState, start, final, links := [], name }
+def Fsg.init (name : String) (nState start final : Nat) (logZero : Int := -536870912) : Fsg :=
+  { nState, start, final, links := [], name, logZero }
 
 def Link.isNull (l : Link) : Bool := l.wid.isNone
 
@@ -115,29 +118,32 @@ structure PassSt where
   nulls : List Key
   updated : Bool
 
-def innerStep (a : Nat) (lp1 : Int) (s : PassSt) (tl2 : Link) : PassSt :=
-  let r := nullAdd s.g a tl2.dst (lp1 + tl2.logp)
+/-- `logp = (int64)a + (int64)b; if (logp < zero) logp = zero;` (fsg_model.c, closure loop, D51) -/
+def satAdd (z a b : Int) : Int := if a + b < z then z else a + b
+
+def innerStep (z : Int) (a : Nat) (lp1 : Int) (s : PassSt) (tl2 : Link) : PassSt :=
+  let r := nullAdd s.g a tl2.dst (satAdd z lp1 tl2.logp)
   { g := r.1,
     nulls := if r.2 > 0 then (a, tl2.dst) :: s.nulls else s.nulls,
     updated := s.updated || decide (r.2 ≥ 0) }
 
-def outerStep (s : PassSt) (k : Key) : PassSt :=
+def outerStep (z : Int) (s : PassSt) (k : Key) : PassSt :=
   match nullLookup s.g k.1 k.2 with
   | none => s
   | some lp1 =>
-    (s.g.links.filter fun l => l.isNull && l.src == k.2).foldl (innerStep k.1 lp1) s
+    (s.g.links.filter fun l => l.isNull && l.src == k.2).foldl (innerStep z k.1 lp1) s
 
 /-- one iteration of the `do … while (updated)` loop -/
-def pass (g : Fsg) (nulls : List Key) : PassSt :=
-  nulls.foldl outerStep { g, nulls, updated := false }
+def pass (z : Int) (g : Fsg) (nulls : List Key) : PassSt :=
+  nulls.foldl (outerStep z) { g, nulls, updated := false }
 
 /-- the `do … while (updated)` loop with fuel; the last component says whether the loop ended
 because a pass made no update (`true`) or because the fuel ran out (`false`) -/
-def closureLoop : Nat → Fsg → List Key → Fsg × List Key × Bool
+def closureLoop (z : Int) : Nat → Fsg → List Key → Fsg × List Key × Bool
   | 0, g, nulls => (g, nulls, false)
   | fuel + 1, g, nulls =>
-    let s := pass g nulls
-    if s.updated then closureLoop fuel s.g s.nulls else (s.g, s.nulls, true)
+    let s := pass z g nulls
+    if s.updated then closureLoop z fuel s.g s.nulls else (s.g, s.nulls, true)
 
 def nullLinks (g : Fsg) : List Link := g.links.filter Link.isNull
 
@@ -149,7 +155,7 @@ def nullKeys (g : Fsg) : List Key := (nullLinks g).map fun l => (l.src, l.dst)
 final pass that finds nothing to do -/
 def closureFuel (g : Fsg) : Nat := (nullLinks g).length + 1
 
-def closureRun (g : Fsg) : Fsg × List Key × Bool := closureLoop (closureFuel g) g (nullKeys g)
+def closureRun (g : Fsg) : Fsg × List Key × Bool := closureLoop g.logZero (closureFuel g) g (nullKeys g)
 
 /-- `fsg_model_null_trans_closure(fsg, NULL)` -/
 def closure (g : Fsg) : Fsg := (closureRun g).1
@@ -210,6 +216,8 @@ structure Codec where
   /-- `p = (float32)atof(tok)`; `none` when `p <= 0 || p > 1`, else
   `(int32)(logmath_log(lmath, p) * lw)` -/
   parseP : String → Option Int
+  /-- `logmath_get_zero` of the `lmath` handed to the reader -/
+  zero : Int := -536870912
 
 /-- arcs of state `i` in the order of `fsg_model_arcs`: word links first, then null links -/
 def arcsOf (g : Fsg) (i : Nat) : List Link :=
@@ -322,7 +330,7 @@ def read (C : Codec) (lines : List (List String)) : Except ReadErr Fsg :=
               match stateTok C n.toNat fTok with
               | none => .error .finalMalformed
               | some f =>
-                match readLines C (Fsg.init name n.toNat s f) l4 with
+                match readLines C (Fsg.init name n.toNat s f C.zero) l4 with
                 | .error e => .error e
                 | .ok g => .ok (closure g)
 
@@ -368,7 +376,14 @@ def project (isFiller : Nat → Bool) (base : Nat → Nat) (g : Fsg) : Fsg :=
 def Fsg.toNfa (g : Fsg) : SSVerif.Nfa.Nfa :=
   { start := g.start, final := g.final, arcs := g.links.map fun l => (l.src, l.wid, l.dst) }
 
-/-! ### executable best log-probability (max-plus, `none` = −∞); exact for `logp ≤ 0` -/
+/-! ### executable best log-probability (max-plus, `none` = −∞)
+
+A forward dynamic programme over the sentence: a vector holds, per state, the best weight of a
+path from the start state spelling the prefix read so far; after each word (and at the start) the
+vector is closed under null links by Bellman–Ford (Jacobi) rounds *until a round changes
+nothing*.  Reaching that fixpoint is what makes the result exact (`Proofs/FsgBest.lean`,
+`bestLogProb_sound`, for every grammar); if the fuel runs out first the function says so
+(`none`), which cannot happen when null log-probabilities are `≤ 0` (`bestLogProb_total`). -/
 
 def omax : Option Int → Option Int → Option Int
   | none, b => b
@@ -383,32 +398,64 @@ abbrev Vec := List (Option Int)
 
 def Vec.get (v : Vec) (i : Nat) : Option Int := v.getD i none
 
-/-- `v[i] := max v[i] x` -/
-def Vec.relax (v : Vec) (i : Nat) (x : Option Int) : Vec :=
-  if i < v.length then v.set i (omax (v.get i) x) else v
+def tabulate (n : Nat) (f : Nat → Option Int) : Vec := (List.range n).map f
 
-/-- one Bellman–Ford round over the null links -/
-def relaxNull (g : Fsg) (v : Vec) : Vec :=
-  (nullLinks g).foldl (fun acc l => acc.relax l.dst (oadd (acc.get l.src) l.logp)) v
+/-- per link of `ls`: target state and the weight reached through it from `v` -/
+def cands (v : Vec) (ls : List Link) : List (Nat × Option Int) :=
+  ls.map fun l => (l.dst, oadd (v.get l.src) l.logp)
 
-/-- at most `n` Bellman–Ford rounds, stopping at the first round that changes nothing -/
-def nullClose (g : Fsg) : Nat → Vec → Vec
-  | 0, v => v
-  | n + 1, v =>
-    let v' := relaxNull g v
-    if v' == v then v else nullClose g n v'
+/-- best of `init` and the candidates for state `j` -/
+def pick (cs : List (Nat × Option Int)) (j : Nat) (init : Option Int) : Option Int :=
+  cs.foldl (fun acc c => if c.1 = j then omax acc c.2 else acc) init
+
+/-- one Bellman–Ford round over the null links (all states at once, from the old vector) -/
+def relaxNull (g : Fsg) (n : Nat) (v : Vec) : Vec :=
+  let cs := cands v (nullLinks g)
+  tabulate n fun j => pick cs j (v.get j)
+
+/-- rounds until one changes nothing; `none` when `fuel` rounds did not get there -/
+def nullClose (g : Fsg) (n : Nat) : Nat → Vec → Option Vec
+  | 0, _ => none
+  | fuel + 1, v =>
+    let v' := relaxNull g n v
+    if v' == v then some v else nullClose g n fuel v'
 
 def stepWord (g : Fsg) (n : Nat) (v : Vec) (w : Nat) : Vec :=
-  (g.links.filter fun l => l.wid == some w).foldl
-    (fun acc l => acc.relax l.dst (oadd (v.get l.src) l.logp)) (List.replicate n none)
+  let cs := cands v (g.links.filter fun l => l.wid == some w)
+  tabulate n fun j => pick cs j none
 
 /-- states are `0 … n-1` with `n = max nState (1 + largest state mentioned)` -/
 def stateBound (g : Fsg) : Nat :=
   g.links.foldl (fun m l => max m (max l.src l.dst + 1)) (max g.nState (max g.start g.final + 1))
 
-def bestLogProb (g : Fsg) (ws : List Nat) : Option Int :=
-  let n := stateBound g
-  let v0 := nullClose g n ((List.replicate n none).set g.start (some 0))
-  (ws.foldl (fun v w => nullClose g n (stepWord g n v w)) v0).get g.final
+/-- rounds allowed per closure: one per null link (plus the round that finds nothing to do)
+suffices for null log-probabilities `≤ 0` (`bestLogProb_total`) -/
+def closeFuel (g : Fsg) : Nat := (nullLinks g).length + 2
+
+def dpInit (g : Fsg) (n : Nat) : Option Vec :=
+  nullClose g n (closeFuel g) (tabulate n fun j => if j = g.start then some 0 else none)
+
+def dpStep (g : Fsg) (n : Nat) (v : Vec) (w : Nat) : Option Vec :=
+  nullClose g n (closeFuel g) (stepWord g n v w)
+
+def dpRun (g : Fsg) (n : Nat) : Vec → List Nat → Option Vec
+  | v, [] => some v
+  | v, w :: ws => match dpStep g n v w with
+    | some v' => dpRun g n v' ws
+    | none => none
+
+/-- the vector after reading `ws` -/
+def dpVec (g : Fsg) (ws : List Nat) : Option Vec :=
+  match dpInit g (stateBound g) with
+  | some v0 => dpRun g (stateBound g) v0 ws
+  | none => none
+
+/-- `some (some v)`: the best accepting path for `ws` weighs `v`; `some none`: `ws` is not
+accepted; `none`: gave up (a null cycle of positive weight) -/
+def bestLogProb? (g : Fsg) (ws : List Nat) : Option (Option Int) :=
+  (dpVec g ws).map (·.get g.final)
+
+/-- the same with "gave up" mapped to "not accepted" (use `bestLogProb?` to tell them apart) -/
+def bestLogProb (g : Fsg) (ws : List Nat) : Option Int := (bestLogProb? g ws).join
 
 end SSVerif.Fsg
